@@ -42,4 +42,6 @@ pub mod depfile;
 pub mod trace;
 pub mod alloc;
 pub mod layoutdump;
+pub mod errlog;
+pub mod malformed;
 pub mod thunks;
